@@ -35,6 +35,8 @@ ERRORS = {
     "indexed-immediate": "lda #0x12,x",
     "undefined-code-block": "{{ no_such_block }}",
     "unmapped-address": "*=0x700000\nnop",
+    "unmapped-address-beyond-the-24-bit-bus": "*=0x1008000\nnop",
+    "unmapped-address-beyond-the-bus-mirror-bits": "*=0x2808000\nnop",
     "missing-include": ".include 'no_such_file.s'",
     "missing-incbin": ".incbin 'no_such_file.bin'",
     "too-few-macro-args": ".macro two(a, b) {\n.db a, b\n}\ntwo(1)",
